@@ -11,6 +11,7 @@ import hashlib
 import importlib
 import itertools
 import operator
+import os
 import pickle
 import sys
 
@@ -166,6 +167,9 @@ def exec_demo(path):
     ns = {}
     with open(path) as f:
         src = f.read()
+    tdir = os.path.join(os.path.dirname(os.path.dirname(os.path.abspath(path))), "test")
+    if tdir not in sys.path:
+        sys.path.append(tdir)  # the demos import the test-suite's element doubles
     exec(compile(src, path, "exec"), ns)
     out = []
     for k in sorted(ns):
